@@ -637,16 +637,19 @@ theorem splitRefs_spec (rHdr : Nat) (cells : List (Nat × StrElt)) (e : AEnc) (r
           · intro i
             rw [cu.live, lu, hX0]
             have b1 := fE3 i; have b2 := hold i; have b3 := dE3rest i; have b4 := ownE.2 i; have b5 := ownRef.2 i
-            have b6 := dERef i
+            have b6 := dERef i; have b7 := wf i
             generalize (match r.2 with | none => [] | some one => rHdr :: refsOwned one) = P at *
+            simp only [refCellsOwned] at *
             generalize cellsOwned StrElt.owned rest = RS at *
             generalize refsOwned result = RR at *
             simp only [refCellsOwned, List.mem_cons, List.mem_append] at b2 b3 ⊢
             clear ih hfail hborRest hrefstep c1 c1' ca own ownE ownT ownT' ownCR ownRR ownRef ownRest ownRes keep1 keepT ownE1 ownRef1 ownRest1 ownRes1 ownRC1 oRC_t2 oRes_t2 hold hbor hX0 lt lt0 lt2 cu lu ownU hborU liveOld oE3u oE3_t2 fE3 dE3rest dXrest hRef2_t hE_t hprov hprov' pu hown2
             grind
           · intro i hi
-            have b0 := cu.fresh i hi; have b1 := fE3 i
+            have b0 := cu.fresh i hi; have b1 := fE3 i; have b7 := wf i; have b8 := nxu
+            have b9 : i ∈ e3.owned → i ≤ u.next := fun h => wfu i (oE3u.2 i h)
             generalize (match r.2 with | none => [] | some one => rHdr :: refsOwned one) = P at *
+            simp only [refCellsOwned] at *
             generalize cellsOwned StrElt.owned rest = RS at *
             generalize refsOwned result = RR at *
             simp only [refCellsOwned, List.mem_cons, List.mem_append] at b0 ⊢
@@ -658,7 +661,77 @@ theorem splitRefs_spec (rHdr : Nat) (cells : List (Nat × StrElt)) (e : AEnc) (r
             rcases pu l' hl' x hx with ⟨l, hl, hxl⟩ | h
             · exact hprov' l hl x hxl
             · exact Or.inr h
-        sorry
+        have hNref2 : ∀ i ∈ N, i ∈ ref2.owned := fun i hi => (hown2 i).2 (Or.inr hi)
+        cases ok3 with
+        | false =>
+          have hadd3 : added3 = false := by
+            cases added3 with
+            | false => rfl
+            | true => have := hadd rfl; simp at this
+          subst hadd3
+          simp only [Bool.not_false, if_true]
+          have ca' : Clean t t2 (e.owned ++ ref2.owned) (e3.owned ++ ref2.owned) := by simpa using ca
+          have oRef2_t2 : Owns t2 ref2.owned := (Owns.append_iff.1 ca'.owns).2.1
+          refine Good.bind (strEltDestroy_spec (some ref2) t2 ca.wf (by simpa [ownedEltOpt] using oRef2_t2)) ?_
+          intro _ t3 ⟨d3, hd3, nd3⟩
+          have d3' : Clean t2 t3 ref2.owned [] := by simpa [ownedEltOpt] using d3
+          have oRC3 : Owns t3 (refCellsOwned rHdr rest) :=
+            d3'.keeps oRC_t2 (fun i hi hm => dXrest i (List.mem_append_left _ hi) (List.mem_append_right _ hm))
+          have oRes3 : Owns t3 (refsOwned result) :=
+            d3'.keeps oRes_t2 (fun i hi hm => dXrest i (List.mem_append_right _ hi) (List.mem_append_right _ hm))
+          refine (hfail t3 e3 d3.wf oRC3 oRes3).mono ?_
+          intro r t4 ⟨er, l4, sc4, n4, hh4, wf4⟩
+          subst er
+          simp only [List.append_nil]
+          refine ⟨eh3, eo3, eu3, ⟨?_, ?_, oE3_t2.1, by rw [sc4, d3.sched, ca.sched, sct, c1'.sched], by omega, by omega, wf4⟩, by simp, hprov'⟩
+          · intro i
+            rw [l4, d3'.live, ca'.live, lt0, hX0]
+            have b1 := fE3 i; have b2 := hold i; have b3 := dE3rest i; have b4 := ownE.2 i; have b5 := ownRef.2 i
+            have b6 := dERef i; have b7 := wf i; have b8 := hown2 i; have b9 := fN0 i
+            have b10 : i ∈ e3.owned → i ∉ ref2.owned := fun h1 h2 => (Owns.append_iff.1 ca'.owns).2.2 i h1 h2
+            simp only [refCellsOwned] at *
+            generalize cellsOwned StrElt.owned rest = RS at *
+            generalize refsOwned result = RR at *
+            simp only [List.mem_cons, List.mem_append, List.not_mem_nil, or_false] at b2 b3 ⊢
+            clear ih hfail hborRest hrefstep hrec c1 c1' ca ca' d3 d3' own ownE ownT ownT' ownCR ownRR ownRef ownRest ownRes keep1 keepT ownE1 ownRef1 ownRest1 ownRes1 ownRC1 oRC_t2 oRes_t2 oRC3 oRes3 hold hbor hX0 lt lt0 lt2 oE3_t2 fE3 dE3rest dXrest hRef2_t hE_t hprov hprov' hown2 oRef2_t2 hNref2 fN fN0
+            grind
+          · intro i hi
+            rcases fE3 i hi with h | h | h
+            · exact Or.inl ((hX0 i).2 (Or.inl h))
+            · exact Or.inl ((hX0 i).2 (Or.inr (Or.inr (Or.inr (Or.inl h)))))
+            · exact Or.inr ⟨h, by have := ca.wf i (oE3_t2.2 i hi); omega⟩
+        | true =>
+          simp only [Bool.not_true, Bool.false_eq_true, if_false]
+          have hnohit2 : t2.hits = s0.hits := by
+            have : ¬ t.hits < t2.hits := by intro hh; have := hha hh; simp at this
+            omega
+          cases added3 with
+          | true =>
+            simp only [Bool.not_true, Bool.false_eq_true, if_false]
+            have ca' : Clean t t2 (e.owned ++ ref2.owned) e3.owned := by simpa using ca
+            simp only [Prog.bind]
+            refine hrec t2 ca.wf (by rw [ca.sched, sct, c1'.sched]) (by omega) hnohit2 ?_
+            intro i
+            rw [ca'.live, lt0]
+            have b1 := fE3 i; have b7 := wf i; have b8 := hown2 i; have b9 := fN0 i
+            simp only [List.mem_append]
+            clear ih hfail hborRest hrefstep hrec c1 c1' ca ca' own ownE ownT ownT' ownCR ownRR ownRef ownRest ownRes keep1 keepT ownE1 ownRef1 ownRest1 ownRes1 ownRC1 oRC_t2 oRes_t2 hold hbor hX0 lt lt0 lt2 oE3_t2 fE3 dE3rest dXrest hRef2_t hE_t hprov hprov' hown2 hNref2 fN fN0
+            grind
+          | false =>
+            simp only [Bool.not_false, if_true]
+            have ca' : Clean t t2 (e.owned ++ ref2.owned) (e3.owned ++ ref2.owned) := by simpa using ca
+            have oRef2_t2 : Owns t2 ref2.owned := (Owns.append_iff.1 ca'.owns).2.1
+            refine Good.bind (strEltDestroy_spec (some ref2) t2 ca.wf (by simpa [ownedEltOpt] using oRef2_t2)) ?_
+            intro _ t3 ⟨d3, hd3, nd3⟩
+            have d3' : Clean t2 t3 ref2.owned [] := by simpa [ownedEltOpt] using d3
+            refine hrec t3 d3.wf (by rw [d3.sched, ca.sched, sct, c1'.sched]) (by omega) (by omega) ?_
+            intro i
+            rw [d3'.live, ca'.live, lt0]
+            have b1 := fE3 i; have b7 := wf i; have b8 := hown2 i; have b9 := fN0 i
+            have b10 : i ∈ e3.owned → i ∉ ref2.owned := fun h1 h2 => (Owns.append_iff.1 ca'.owns).2.2 i h1 h2
+            simp only [List.mem_append, List.not_mem_nil, or_false]
+            clear ih hfail hborRest hrefstep hrec c1 c1' ca ca' d3 d3' own ownE ownT ownT' ownCR ownRR ownRef ownRest ownRes keep1 keepT ownE1 ownRef1 ownRest1 ownRes1 ownRC1 oRC_t2 oRes_t2 hold hbor hX0 lt lt0 lt2 oE3_t2 fE3 dE3rest dXrest hRef2_t hE_t hprov hprov' hown2 oRef2_t2 hNref2 fN fN0
+            grind
     · sorry
 
 end Wbxml.Model.Alloc
